@@ -51,6 +51,10 @@ def make_fn(sig, log, ctx_mode, inj, is_method=False, is_async=False, nullable=F
         parts.append('self')
     if ctx_mode == 'positional':
         parts.append('ctx')
+    if ctx_mode == 'positional-misnamed':
+        # registered with context='ctx', positional=True although the first parameter is called 'request': nothing is named
+        # 'ctx', so 'request' is an ordinary (required) parameter for the documents and for binding alike
+        parts.append('request: int')
     star = False
     for i, (kind, dflt) in enumerate(sig):
         if kind == 'ko' and not star:
@@ -67,13 +71,16 @@ def make_fn(sig, log, ctx_mode, inj, is_method=False, is_async=False, nullable=F
         if not star:
             parts.append('*')
         parts.append('inj: Annotated[str, Inject] = "INJ"' if inj == 'annotated' else 'inj: str = "INJ"')
-    names = [NAMES[i] for i in range(len(sig))]
+    names = [NAMES[i] for i in range(len(sig))] + (['request'] if ctx_mode == 'positional-misnamed' else [])
     src = '%sdef f(%s):\n    _log.append(dict(%s))\n    return 1\n' % (
         'async ' if is_async else '', ', '.join(parts), ', '.join('%s=%s' % (n, n) for n in names))
     from typing import Optional
     ns = {'_log': log, 'Annotated': Annotated, 'Inject': Inject, 'Optional': Optional}
     exec(src, ns)
     return ns['f'], src
+
+
+_LONG_LIVED = {}
 
 
 def resolve(doc, schema, depth=0):
@@ -105,14 +112,18 @@ def openrpc_params(doc, name):
 
 
 def gen_cases(ctx):
+    for pair in NAME_PAIRS:
+        yield dict(names=pair)
     for sig in signatures(ctx.pick(5, 6)):
-        for ctx_mode in ('none', 'name', 'positional'):
+        for ctx_mode in ('none', 'name', 'positional', 'positional-misnamed'):
+            if ctx_mode == 'positional-misnamed' and (len(sig) > 2 or any(k == 'pk' and d for k, d in sig)):
+                continue
             for inj in (False, True, 'annotated'):
                 for flavour in ('function', 'view'):
                     if flavour == 'view' and ctx_mode != 'none':
                         continue      # views take the context through their constructor
                     for validator in ('base', 'pydantic', 'pydantic-extra-ignore'):
-                        if validator != 'base' and (flavour == 'view' or len(sig) > 3):
+                        if validator != 'base' and (flavour == 'view' or len(sig) > 3 or ctx_mode == 'positional-misnamed'):
                             continue
                         yield dict(sig=sig, ctx=ctx_mode, inj=inj, flavour=flavour, validator=validator)
                         if sig and validator != 'pydantic-extra-ignore' and len(sig) <= 3:
@@ -120,12 +131,53 @@ def gen_cases(ctx):
                             yield dict(sig=sig, ctx=ctx_mode, inj=inj, flavour=flavour, validator=validator, nullable=True)
 
 
+NAME_PAIRS = [('user.get', 'user_get'), ('a_b', 'a.b'), ('getUser', 'get_user'), ('user.get', 'user.get_'), ('v1.get', 'v1get'),
+              ('get_user', 'get__user'), ('get_user', 'Get_User')]
+
+
+def run_names(case, rec):
+    """two methods with different parameters whose names differ only in separators / case, documented together: each one's
+    published parameters must be its own"""
+    n1, n2 = case['names']
+    out = []
+    for order in ((n1, n2), (n2, n1)):
+        def m1(alpha: int, beta: int = 1):
+            return 1
+
+        def m2(gamma: str):
+            return 2
+        fns = {n1: m1, n2: m2}
+        truth = {n1: (['alpha', 'beta'], ['alpha']), n2: (['gamma'], ['gamma'])}
+        d = pjrpc.server.Dispatcher()
+        for n in order:
+            d.add(fns[n], name=n)
+        methods = list(d.registry.values())
+        docs = dict(openapi=openapi.OpenAPI(info=openapi.Info(title='t', version='1'), schema_extractors=[PydanticSchemaExtractor()]).schema(path='/', methods_map={'': methods}),
+                    openrpc=openrpc.OpenRPC(info=openrpc.Info(title='t', version='1'), schema_extractor=PydanticSchemaExtractor()).schema(path='/', methods_map={'': methods}))
+        rec.transitions += 2
+        for kind, doc in docs.items():
+            for n in order:
+                got = (openapi_params if kind == 'openapi' else openrpc_params)(doc, n)
+                if (got[0], got[1]) != truth[n]:
+                    camel = lambda x: ''.join(w.capitalize() for w in x.split('_'))     # noqa
+                    why = 'names equal after camel-casing' if camel(n1) == camel(n2) else 'distinct names'
+                    rec.violation('C17:names:%s documents another method\'s parameters for a method (%s)' % (kind, why),
+                                  dict(case, order=list(order), method=n), expected=truth[n], observed=got)
+                out.append(got)
+    rec.states += 1
+    rec.traces += 1
+    rec.nontrivial_n += 1
+    return repr(out)
+
+
 def run_case(case, rec):
+    if 'names' in case:
+        return run_names(case, rec)
     sig = tuple(tuple(x) for x in case['sig'])
     ctx_mode, inj, flavour = case['ctx'], case['inj'], case['flavour']
-    names = [NAMES[i] for i in range(len(sig))]
+    names = [NAMES[i] for i in range(len(sig))] + (['request'] if ctx_mode == 'positional-misnamed' else [])
     truth_names = sorted(names)
-    truth_required = sorted(NAMES[i] for i, (k, d) in enumerate(sig) if not d)
+    truth_required = sorted([NAMES[i] for i, (k, d) in enumerate(sig) if not d] + (['request'] if ctx_mode == 'positional-misnamed' else []))
     if inj == 'annotated':
         pred = (lambda name, ann, default: Inject in getattr(ann, '__metadata__', ()))
     else:
@@ -156,13 +208,22 @@ def run_case(case, rec):
             kw = {}
             if ctx_mode == 'name':
                 kw = dict(context='ctx')
-            elif ctx_mode == 'positional':
+            elif ctx_mode in ('positional', 'positional-misnamed'):
                 kw = dict(context='ctx', positional=True)
             d.add(fn, name='f', **kw)
         methods = list(d.registry.values())
         ext_kw = dict(exclude_param=pred) if inj else {}
         docs = {}
         try:
+            # long-lived specification objects that have documented every earlier program of this process (all under the
+            # name 'f' and the path '/'): what they say about THIS program must equal what fresh objects say
+            lk = 'inj:%s' % inj
+            if lk not in _LONG_LIVED:
+                _LONG_LIVED[lk] = (openapi.OpenAPI(info=openapi.Info(title='t', version='1'), schema_extractors=[PydanticSchemaExtractor(**ext_kw)]),
+                                   openrpc.OpenRPC(info=openrpc.Info(title='t', version='1'), schema_extractor=PydanticSchemaExtractor(**ext_kw)))
+            old_oa, old_orpc = _LONG_LIVED[lk]
+            stale = dict(openapi=openapi_params(old_oa.schema(path='/', methods_map={'': methods}), 'f'),
+                         openrpc=openrpc_params(old_orpc.schema(path='/', methods_map={'': methods}), 'f'))
             docs['openapi'] = openapi_params(openapi.OpenAPI(
                 info=openapi.Info(title='t', version='1'), schema_extractors=[PydanticSchemaExtractor(**ext_kw)],
             ).schema(path='/', methods_map={'': methods}), 'f')
@@ -173,8 +234,12 @@ def run_case(case, rec):
             rec.violation('C17:%s:document generation raised %s' % (flavour, type(e).__name__), dict(case, disp=disp, source=src.split('\n')[0]),
                           expected='documents', observed='%s: %s' % (type(e).__name__, e))
             return ('raised',)
-        rec.transitions += 2
+        rec.transitions += 4
         c = dict(case, disp=disp, source=src.split('\n')[0])
+        for kind in docs:
+            if stale[kind] != docs[kind]:
+                rec.violation('C17:%s:%s parameters documented by a specification object that documented other registries before differ from a fresh one' % (flavour, kind),
+                              c, expected=docs[kind], observed=stale[kind])
         for kind, (dn, dr) in docs.items():
             if dn != truth_names:
                 extra = sorted(set(dn) - set(truth_names))
@@ -281,7 +346,10 @@ def replay(doc):
     from mc.core import Recorder, jdump
     rec = Recorder()
     c = doc['case']
-    run_case(dict(sig=c['sig'], ctx=c['ctx'], inj=c['inj'], flavour=c['flavour'], validator=c.get('validator', 'base'), nullable=c.get('nullable', False)), rec)
+    if 'names' in c:
+        run_case(dict(names=c['names']), rec)
+    else:
+        run_case(dict(sig=c['sig'], ctx=c['ctx'], inj=c['inj'], flavour=c['flavour'], validator=c.get('validator', 'base'), nullable=c.get('nullable', False)), rec)
     for v in rec.violations[:5]:
         print('VIOLATION-REPLAY signature=%s\n  case=%s\n  expected=%s\n  observed=%s' % (
             v['signature'], jdump(v['case'])[:400], jdump(v['expected'])[:300], jdump(v['observed'])[:300]))
